@@ -215,3 +215,174 @@ def check_copy_methods(ctx, rule: str, class_quals: list) -> int:
                 ctx.ob(rule, m.short(), "changes-one-field", len(changed) == 1,
                        f"{m.name} changes {changed} (exactly one field expected)", f"{m.module.rel}:{s.lineno}")
     return n
+
+
+# --------------------------------------------------------------------------------------------
+# meaning-level helpers shared by C06 / C07 / C08: argument binding, provenance through helper parameters,
+# the packet's source address, the body of duplicate address detection
+# --------------------------------------------------------------------------------------------
+from .. import sem
+
+
+def bind_args(callee: FuncInfo, call: ast.Call) -> Optional[dict]:
+    """parameter name -> argument expression of `call` (the receiver is bound to the first parameter of a method);
+    None when the call uses * / ** unpacking (binding not decidable)."""
+    params = callee.params
+    off = 1 if callee.kind in ("method", "classmethod", "property") and params else 0
+    out = {}
+    for i, a in enumerate(call.args):
+        if isinstance(a, ast.Starred):
+            return None
+        if i + off < len(params):
+            out[params[i + off]] = a
+    for kw in call.keywords:
+        if kw.arg is None:
+            return None
+        out[kw.arg] = kw.value
+    if off and callee.kind == "method" and isinstance(call.func, ast.Attribute):
+        out[params[0]] = call.func.value
+    return out
+
+
+def ctor_fields(ci: ClassInfo) -> list:
+    """Dataclass fields in constructor order (base classes first)."""
+    out = []
+    for c in reversed(ci.mro()):
+        for f, (ann, _) in c.fields.items():
+            if ann is not None and f not in out:
+                out.append(f)
+    return out
+
+
+def bind_ctor(ci: ClassInfo, call: ast.Call) -> Optional[dict]:
+    """field name -> argument expression of a dataclass construction."""
+    fields = ctor_fields(ci)
+    out = {}
+    for i, a in enumerate(call.args):
+        if isinstance(a, ast.Starred) or i >= len(fields):
+            return None
+        out[fields[i]] = a
+    for kw in call.keywords:
+        if kw.arg is None:
+            return None
+        out[kw.arg] = kw.value
+    return out
+
+
+def subst_names(expr: ast.AST, amap: dict) -> ast.AST:
+    """`expr` with every loaded Name that is a key of `amap` replaced by (a copy of) the mapped expression."""
+    import copy
+
+    class S(ast.NodeTransformer):
+        def visit_Name(self, n):
+            if isinstance(n.ctx, ast.Load) and n.id in amap:
+                return copy.deepcopy(amap[n.id])
+            return n
+
+        def visit_Lambda(self, n):
+            return n
+    return S().visit(copy.deepcopy(expr))
+
+
+def chain_of(h: Handler) -> list:
+    return [h.fi] + list(h.helpers)
+
+
+def to_handler_terms(ctx, h: Handler, fi: FuncInfo, xexpr: ast.AST, _depth: int = 0) -> list:
+    """Values of `xexpr` (already expanded in `fi`'s terms: it mentions parameters of fi and immutable local versions)
+    rewritten in terms of the receive handler `h`: parameters of a forwarding helper are replaced by the (expanded)
+    arguments at every call site inside the handler's call chain.  One result per call path; [] when fi is not reached
+    from the handler."""
+    if fi is h.fi:
+        return [xexpr]
+    if _depth > 6:
+        return []
+    P = ctx.prog
+    out = []
+    chain = {f.qual for f in chain_of(h)}
+    for caller, call in P.callers_of(fi):
+        if caller.qual not in chain:
+            continue
+        amap = bind_args(fi, call)
+        if amap is None:
+            continue
+        cfl = ctx.flows.get(caller, lifted=True)
+        cst = cfl.state_at(call)
+        xmap = {p: cfl.expand(a, cst) for p, a in amap.items() if not (p == fi.params[0] and fi.kind == "method")}
+        out += to_handler_terms(ctx, h, caller, subst_names(xexpr, xmap), _depth + 1)
+    return out
+
+
+def decoded_x(ctx, h: Handler) -> ast.AST:
+    """The handler's decode call with locals expanded (`Cls.decode(packet[0:N])` over the handler's own parameter)."""
+    fl = ctx.flows.get(h.fi, lifted=True)
+    return fl.expand(h.decode_call, fl.state_at(h.decode_call))
+
+
+def source_pv_x(ctx, h: Handler) -> ast.AST:
+    """Expression (handler terms) of the SOURCE position vector of the received packet: the decoded header's `so_pv`,
+    or the decoded long position vector itself for SHB / beacon."""
+    dec = decoded_x(ctx, h)
+    cls = h.ext_cls
+    if cls is not None and "so_pv" in ctor_fields(cls):
+        return ast.Attribute(value=dec, attr="so_pv", ctx=ast.Load())
+    if cls is not None and cls.name == "LongPositionVector":
+        return dec
+    raise AnalysisError(f"{h.fi.name}: decoded class {cls.name if cls else '?'} has no source position vector")
+
+
+def source_addr_x(ctx, h: Handler) -> ast.AST:
+    return ast.Attribute(value=source_pv_x(ctx, h), attr="gn_addr", ctx=ast.Load())
+
+
+def must_calls(st, suffix: str) -> list:
+    """Call facts of a state whose resolved target ends with `suffix` (the calls certainly made before the state)."""
+    return [f for f in st.facts if f.kind == "call" and isinstance(f.xnode, ast.Call)
+            and any(t.endswith(suffix) for t in f.targets)]
+
+
+def dad_on_source(ctx, h: Handler, fi: FuncInfo, st) -> tuple:
+    """(ok, description): duplicate_address_detection has certainly been called, before the state `st` of `fi`, on the
+    SOURCE address of the packet the handler decoded (not merely on some address)."""
+    P = ctx.prog
+    dad = P.func(f"{ROUTER}.duplicate_address_detection")
+    want = sem.cx(source_addr_x(ctx, h))
+    seen = []
+    for f in must_calls(st, "Router.duplicate_address_detection"):
+        amap = bind_args(dad, f.xnode)
+        if not amap or len(dad.params) < 2 or dad.params[1] not in amap:
+            continue
+        for x in to_handler_terms(ctx, h, fi, amap[dad.params[1]]):
+            seen.append(sem.cx(x))
+    ok = any(s == want for s in seen)
+    return ok, (f"preceded by DAD on the packet's source address `{want[:70]}`" if ok else
+                f"NOT preceded on every path by duplicate_address_detection(<source address of the decoded packet> = "
+                f"`{want[:70]}`); addresses checked: {[s[:60] for s in seen]}")
+
+
+def check_dad_body(ctx, rule: str) -> None:
+    """duplicate_address_detection(addr) raises DADException exactly when addr EQUALS (==) the local GN address."""
+    P = ctx.prog
+    fi = P.func(f"{ROUTER}.duplicate_address_detection")
+    fl = ctx.flows.get(fi)
+    if len(fi.params) != 2:
+        raise AnalysisError(f"{fi.qual}: expected exactly one parameter (the address)")
+    cond = f"self.mib.itsGnLocalGnAddr == {fi.params[1]}"
+    raises = [(s, st) for k, s, st in fl.exits if k == "raise"]
+    normal = [(s, st) for k, s, st in fl.exits if k in ("return", "fall")]
+    kinds = []
+    for s, st in raises:
+        exc = s.exc.func if isinstance(s.exc, ast.Call) else s.exc
+        r = P.resolve_expr_entity(fi.module, exc) if exc is not None else None
+        kinds.append(r.name if isinstance(r, ClassInfo) else "?")
+    ok_r = bool(raises) and all(k == "DADException" for k in kinds) and \
+        all(sem.holds(sem.facts_of_state(st), cond) for _, st in raises)
+    ctx.ob(rule, fi.short(), "raises-when-own-address", ok_r,
+           "DADException is raised under `own address == addr` (value equality)" if ok_r else
+           f"duplicate_address_detection does not raise DADException exactly under `{cond}` (value equality; an identity "
+           f"test never matches a decoded address): raises {kinds} under "
+           f"{[sorted(sem.facts_of_state(st)) for _, st in raises]}", fi.loc)
+    ok_n = bool(normal) and all(sem.holds(sem.facts_of_state(st), cond, False) for _, st in normal)
+    ctx.ob(rule, fi.short(), "returns-only-when-different", ok_n,
+           "returns normally only when the address differs from the own address" if ok_n else
+           "a normal return is reachable although the address may equal the own address", fi.loc)
